@@ -111,7 +111,9 @@ pub struct AgentLogCase {
     /// the key (a bundle; the key file is given as well); 3 key file with its line breaks turned
     /// into spaces; 4 key file with CR line ends; 5 key file without its END line; 6 key file
     /// with a line of text before the PEM block; 7 key file = certificate followed by the key;
-    /// 8 key file with a preamble that is not UTF-8 (Latin-1 friendly name, as PKCS#12 exports have)
+    /// 8 key file with a preamble that is not UTF-8 (Latin-1 friendly name, as PKCS#12 exports have);
+    /// 9 key file starting with a UTF-8 byte-order mark; 10 key file = key without its END line
+    /// followed by the certificate (a second BEGIN line inside the open section)
     #[serde(default)]
     pub layout: u8,
 }
@@ -144,12 +146,20 @@ fn layout_files(crt: &str, keyfile: &str, layout: u8) -> Option<(String, String,
         ),
         6 => (cert.clone(), format!("Bag Attributes: client key\n{key}")),
         7 => (cert.clone(), format!("{cert}{key}")),
+        9 => (cert.clone(), format!("\u{feff}{key}")),
+        10 => (
+            cert.clone(),
+            format!(
+                "{}{cert}",
+                key.lines().filter(|l| !l.starts_with("-----END")).map(|l| format!("{l}\n")).collect::<String>()
+            ),
+        ),
         // 8: as `openssl pkcs12 -nodes` writes it, with a Latin-1 (not UTF-8) friendly name
         _ => (cert.clone(), key.clone()),
     };
     let (c, k) = (dir.join("client.crt"), dir.join("client.key"));
     std::fs::write(&c, new_cert).ok()?;
-    if layout >= 8 {
+    if layout == 8 {
         let mut bytes = b"Bag Attributes\n    friendlyName: Jos\xe9 router key\nKey Attributes: <No Attributes>\n".to_vec();
         bytes.extend_from_slice(new_key.as_bytes());
         std::fs::write(&k, bytes).ok()?;
@@ -205,7 +215,7 @@ impl Prop for C20Agent {
     }
     fn rule(&self) -> String {
         "the unmodified agent binary (one-shot, `remote` target over TLS on loopback) with one of 5 \
-         client keys, 0..4 -v flags, optionally a RUST_LOG directive, and a successful or failing \
+         client keys in 11 layouts of the certificate / key files (every layout also as a fixed case at -vvvv), 0..4 -v flags, optionally a RUST_LOG directive, and a successful or failing \
          run (server closes after the hello, IRR unreachable, nothing listening); its complete \
          stderr (ANSI sequences removed) is searched for the key: every line of the PEM body, the \
          whole DER and every secret component of it in clear / hex / base64 (all alignments) / \
@@ -217,13 +227,23 @@ impl Prop for C20Agent {
     fn cases(&self, tier: Tier) -> u32 {
         tier.pick(60, 3_000)
     }
+    fn fixed_cases(&self) -> Vec<AgentLogCase> {
+        // every key-file layout at the highest verbosity, with an RSA and an Ed25519 key
+        let mut v = Vec::new();
+        for layout in 0u8..11 {
+            for key in [0u8, 4] {
+                v.push(AgentLogCase { key, verbosity: 4, rust_log: None, outcome: 0, layout });
+            }
+        }
+        v
+    }
     fn strategy(&self, _tier: Tier) -> BoxedStrategy<AgentLogCase> {
         (
             0u8..KEY_FILES.len() as u8,
             prop_oneof![1 => Just(0u8), 1 => Just(1u8), 2 => Just(2u8), 2 => Just(3u8), 3 => Just(4u8)],
             prop::option::weighted(0.4, 0u8..RUST_LOG.len() as u8),
             prop_oneof![4 => Just(0u8), 1 => Just(1u8), 1 => Just(2u8), 1 => Just(3u8)],
-            prop_oneof![3 => Just(0u8), 5 => 1u8..9],
+            prop_oneof![3 => Just(0u8), 7 => 1u8..11],
         )
             .prop_map(|(key, verbosity, rust_log, outcome, layout)| AgentLogCase {
                 key,
